@@ -347,11 +347,11 @@ def rand_faults(rng):
             for _ in range(rng.choice([1, 1, 2, 4, 5])):
                 steps.append({"op": "timeout"})
         elif k == "readerr":
-            steps.append({"op": "readerr", "class": rng.choice(["other", "sys", "sys"])})
+            steps.append({"op": "readerr", "class": rng.choice(["other", "sys", "sys", "lnr", "link", "perm", "notexist"])})
         elif k == "link":
             steps.append({"op": "link"})
         elif k == "failw":
-            steps.append({"op": "failw", "dst": rng.choice(["fe80::a1", "allnodes"]), "class": rng.choice(["other", "sys"])})
+            steps.append({"op": "failw", "dst": rng.choice(["fe80::a1", "allnodes"]), "class": rng.choice(["other", "sys", "lnr", "perm"])})
         elif k == "fwderr":         # the forwarding-state read fails from now on (until an "okw")
             steps.append({"op": "fwderr", "class": rng.choice(["other", "sys"])})
         elif k == "ra":             # a foreign RA: our own RA is built for the comparison
@@ -475,6 +475,14 @@ def fwd_read_failures():
                          {"op": "adv", "to": 12000}]
                 for cfgv in (DEF["cfg"], LEXP["cfg"]):
                     out.append({"cfg": dict(cfgv), "steps": steps, "src": "fwd-read-failure"})
+    # the forwarding read held at its gate while a foreign RA / a solicitation is being handled, with a flip meanwhile
+    for trig in ([{"op": "msg", "kind": "ra", "src": "fe80::b1", "variant": "same"}], [{"op": "msg", "kind": "ra", "src": "fe80::b1", "variant": "diffhl"}],
+                 [{"op": "rs", "src": "fe80::a1"}], [{"op": "rs", "src": "unspec"}]):
+        for flip in (True, False):
+            steps = [{"op": "adv", "to": 5000}, {"op": "hold", "key": "fwd|vf0"}] + trig + [{"op": "adv", "to": 5600}] + \
+                    ([{"op": "flip", "toggle": True}] if flip else []) + [{"op": "release", "key": "fwd|vf0"}, {"op": "adv", "to": 9000},
+                     {"op": "rs", "src": "fe80::a1"}, {"op": "adv", "to": 12000}]
+            out.append({"cfg": dict(DEF["cfg"]), "steps": steps, "src": "fwd-read-held"})
     return out
 
 
